@@ -113,7 +113,7 @@ impl Prop for C10 {
   fn budget(t: Tier) -> u32 { t.pick(3_000, 50_000) }
   fn strategy(_t: Tier, _k: &Known) -> BoxedStrategy<Case> {
     let choices = || proptest::collection::vec(0u32..100_000, 4..=40);
-    (proptest::collection::vec(choices(), 1..=3), proptest::collection::vec(0u8..6, 2), proptest::collection::vec((0u8..3, prop_oneof![Just(Place::Bare), Just(Place::Fence)]), 1..=14), proptest::collection::vec(prop_oneof![2 => Just(255u8), 5 => 0u8..26, 2 => 26u8..32, 5 => 32u8..56], 16), any::<bool>(), prop_oneof![4 => Just(0u8), 1 => 1u8..3], proptest::bool::weighted(0.1), proptest::collection::vec(prop_oneof![3 => Just(0u8), 2 => 1u8..6], 14))
+    (proptest::collection::vec(choices(), 1..=3), proptest::collection::vec(0u8..6, 2), proptest::collection::vec((0u8..3, prop_oneof![Just(Place::Bare), Just(Place::Fence)]), 1..=14), proptest::collection::vec(prop_oneof![2 => Just(255u8), 5 => 0u8..26, 2 => 26u8..32, 5 => 32u8..56], 16), any::<bool>(), prop_oneof![3 => Just(0u8), 2 => 1u8..9], proptest::bool::weighted(0.1), proptest::collection::vec(prop_oneof![3 => Just(0u8), 2 => 1u8..6], 14))
       .prop_map(|(programs, names, order, prose, title, error_in, tight, trailing)| {
         let mut names = names; if names[0] == names[1] { names[1] = (names[1] + 1) % 6; }
         Case { programs, names, order, prose, title, error_in, tight, trailing }
@@ -175,9 +175,23 @@ fn build_doc(c: &Case) -> (String, Vec<Vec<String>>, usize, bool, usize) {
     if pi == 0 { match place { Place::Bare => parts.push(stmt), Place::Fence => parts.push(format!("```mech\n{}\n```", stmt)) } }
     else { parts.push(format!("```mech:{}\n{}\n```", NAMES[c.names[pi - 1] as usize % NAMES.len()], stmt)); }
   }
-  if c.error_in != 0 && (c.error_in as usize) < progs.len() {
-    let pi = c.error_in as usize;
-    parts.push(format!("```mech:{}\nbroken := zzq + 1\n```", NAMES[c.names[pi - 1] as usize % NAMES.len()]));
+  // an erroneous statement in one named namespace: error_in = 1 + (namespace - 1) + 2 * kind; it is placed right after the first fence of that
+  // namespace (so that later fences of the same name still have to see the earlier variables), or at the end if the namespace has none
+  if c.error_in != 0 {
+    let pi = ((c.error_in as usize - 1) % 2) + 1;
+    if pi < progs.len() {
+      let name = NAMES[c.names[pi - 1] as usize % NAMES.len()];
+      let body = match (c.error_in - 1) / 2 {
+        0 => "broken := zzq + 1".to_string(),
+        1 => "hfq(x<f64>) => <f64>\n  ├ 0 => 1\n  └ k => k * 2.\nbroken := hfq(\"oops\")".to_string(),
+        2 => "broken<u8> := \"not a number\"".to_string(),
+        _ => "brk := [1 2 3]\nbroken := brk[7]".to_string(),
+      };
+      let fence = format!("```mech:{}\n{}\n```", name, body);
+      let marker = format!("```mech:{}\n", name);
+      match parts.iter().position(|p| p.starts_with(&marker)) { Some(i) => parts.insert(i + 1, fence), None => parts.push(fence) }
+      if (c.error_in - 1) / 2 == 3 { let at = if per_ns[pi].is_empty() { 0 } else { 1 }; per_ns[pi].insert(at, "brk := [1 2 3]".to_string()); }
+    }
   }
   if let Some(pr) = c.prose.last() { if *pr != 255 { let text = PROSE[*pr as usize % PROSE.len()]; if prose_ok(text) { parts.push(text.to_string()); nprose += 1; } } }
   let sep = if c.tight { "\n" } else { "\n\n" };
@@ -207,7 +221,7 @@ fn check(c: &Case) -> Verdict {
     Ok(x) => x,
   };
   v.label(format!("programs:{}", per_ns.iter().filter(|p| !p.is_empty()).count()));
-  if c.error_in != 0 { v.label("error-in-named-fence"); }
+  if c.error_in != 0 { v.label("error-in-named-fence"); v.label(format!("error-kind:{}", ["undefined-name", "failing-user-function-call", "kind-mismatch", "index-out-of-range"][((c.error_in - 1) / 2) as usize % 4])); }
   let mut ks = kinds.clone(); ks.sort(); ks.dedup();
   let shared_names = per_ns.iter().filter(|p| !p.is_empty()).count() >= 2;
   if (nprose >= 2 && codeish) || (shared_names && per_ns.len() >= 3) { v.key = Some(format!("{}|{:?}|{}|{}", per_ns.iter().filter(|p| !p.is_empty()).count(), c.names, ks.join(","), c.error_in)); }
@@ -227,7 +241,7 @@ fn check(c: &Case) -> Verdict {
   // (2) named namespaces: same names share, different names are isolated — compare as a multiset of snapshots
   let mut want_named: Vec<Snapshot> = vec![];
   for pi in 1..per_ns.len() {
-    let has_fence = !per_ns[pi].is_empty() || c.error_in as usize == pi;
+    let has_fence = !per_ns[pi].is_empty() || (c.error_in != 0 && ((c.error_in as usize - 1) % 2) + 1 == pi);
     if has_fence { want_named.push(alone(&per_ns[pi]).unwrap()); }
   }
   let mut got_named: Vec<Snapshot> = named.into_iter().map(|x| x.1).collect();
